@@ -323,6 +323,59 @@ func Harness_C06_Wide(format, full int) {
 	verif.Assert(v.F65 == "v" || drop1 == 65 || drop2 == 65, "present field not populated")
 }
 
+// Harness_C06_AllOptionalTop: the record at the start of the input has no
+// required field of its own (Opt: child?, items?, byName?), the records nested
+// in it do (Leaf.v): their missing fields are still reported, by full path.
+func Harness_C06_AllOptionalTop(format int) {
+	d := c06DocFor(format)
+	leaf := func(hasV bool) string {
+		if hasV {
+			return d.obj([]string{d.kv("v", d.str("x"))})
+		}
+		return d.obj(nil)
+	}
+	var top, want []string
+	if verif.Bool() {
+		hv := verif.Bool()
+		top = append(top, d.kv("child", leaf(hv)))
+		if !hv {
+			want = append(want, "child.v")
+		}
+	}
+	if verif.Bool() {
+		h0, h1 := verif.Bool(), verif.Bool()
+		top = append(top, d.kv("items", d.arr([]string{leaf(h0), leaf(h1)})))
+		if !h0 {
+			want = append(want, "items[0].v")
+		}
+		if !h1 {
+			want = append(want, "items[1].v")
+		}
+	}
+	if verif.Bool() {
+		hv := verif.Bool()
+		top = append(top, d.kv("byName", d.obj([]string{d.kv("b", leaf(hv))})))
+		if !hv {
+			want = append(want, "byName.b.v")
+		}
+	}
+	doc := d.obj(top)
+	v := new(vt.Opt)
+	err := v.UnmarshalRestLi(c06Reader(d, doc))
+	if len(want) == 0 {
+		verif.Assert(err == nil, "a complete document was rejected: "+doc)
+		verif.Cover("complete")
+		return
+	}
+	mf, ok := err.(*restlicodec.MissingRequiredFieldsError)
+	verif.Assert(ok, "missing required fields of nested records were not reported for "+doc)
+	got := append([]string(nil), mf.Fields...)
+	sort.Strings(got)
+	sort.Strings(want)
+	verif.Assert(strings.Join(got, " ") == strings.Join(want, " "), "missing set is ["+strings.Join(got, " ")+"] want ["+strings.Join(want, " ")+"] for "+doc)
+	verif.Cover("missing-reported")
+}
+
 func Harness_C06_Twin(format int) {
 	d := c06DocFor(format)
 	var top []string
